@@ -544,6 +544,10 @@ func (s *State) exec(n string, args []any, st *Stmt) error {
 						}
 						v = fmt.Sprint(args[0])
 					}
+					if k == "storage_policy" && strings.Trim(v, "'") == "" {
+						// there is no policy without a name (a table without the setting uses the policy "default")
+						return chErr(478, "Unknown storage policy ``")
+					}
 					w.Settings[k] = strings.Trim(v, "'")
 				}
 			case reModTTL.MatchString(a):
